@@ -161,8 +161,13 @@ static inline cbor_item_t *mk_map(void) {
   it->metadata.map_metadata.end_ptr = e;
   if (a == 0 && it->metadata.map_metadata.type == _CBOR_METADATA_INDEFINITE)
     it->data = NULL;
-  else
+  else {
+#ifdef VERIF_MAP_UNTYPED
+    it->data = mk_block(a * sizeof(struct cbor_pair)); /* byte block, as the library's own allocations are */
+#else
     MK_TYPED_BLOCK(it->data, struct cbor_pair, a);
+#endif
+  }
   return it;
 }
 
